@@ -28,7 +28,7 @@ def main():
 	seed = src / 'SEED' if (src / 'SEED').is_dir() else src
 	dest = VERIF / 'seeded' / name
 	dest.mkdir(parents=True, exist_ok=True)
-	for f in ('patch.diff', 'demo.py', 'notes.md'):
+	for f in ('patch.diff', 'native.diff', 'demo.py', 'notes.md'):
 		if (seed / f).exists():
 			shutil.copy(seed / f, dest / f)
 	scratch = Path('/tmp/seedverify') / name
@@ -46,10 +46,22 @@ def main():
 		env = dict(os.environ, PYTHONPATH=str(scratch / 'src'))
 		d0 = sh(['/venv/bin/python', str(dest / 'demo.py')], env=env, cwd=str(scratch), timeout=1200)
 		meta['demo_pristine'] = dict(rc=d0.returncode, tail=(d0.stdout + d0.stderr)[-400:])
-		ap = sh(f'git -C {scratch} apply --whitespace=nowarn {dest / "patch.diff"}')
+		if (dest / 'patch.diff').exists() and (dest / 'patch.diff').read_text().strip():
+			ap = sh(f'git -C {scratch} apply --whitespace=nowarn {dest / "patch.diff"}')
+		else:
+			ap = sh('true')
 		meta['patch_applies'] = ap.returncode == 0
 		if ap.returncode:
 			meta['patch_error'] = ap.stderr[-500:]
+		if (dest / 'native.diff').exists():
+			# change to the generated C of the native kernels (git-ignored, hence a separate diff): apply and rebuild the modules
+			sys.path.insert(0, str(VERIF))
+			from tools.seeds_all import apply_native
+			err = apply_native(scratch, dest / 'native.diff')
+			meta['native_applies'] = err is None
+			if err:
+				meta['patch_applies'] = False
+				meta['patch_error'] = err
 		meta['files_changed'] = sh(f'git -C {scratch} diff --stat').stdout.strip().splitlines()
 		d1 = sh(['/venv/bin/python', str(dest / 'demo.py')], env=env, cwd=str(scratch), timeout=1200)
 		meta['demo_changed'] = dict(rc=d1.returncode, tail=(d1.stdout + d1.stderr)[-600:])
